@@ -32,6 +32,8 @@ var menu = []string{
 	"updtag:tag/a=tag:b", "updtag:tag/a=tag:zz", "updtag:tag/a=sport:80", "updtag:tag/b=cport:2", "updtag:tag/zz=cport:1", "updtag:tag/a=tag:a", "updtag:tag/b=tag:c", "updtag:mark/m=cport:1",
 	"color:tag/a=#123456", "color:tag/zz=#123456",
 	"rename:tag/a=tag/a2", "rename:tag/b=tag/a", "rename:tag/a=service/a", "rename:tag/b=tag/b2", "rename:tag/a=tag/",
+	// calls that ask for what already is: a rename to the tag's own name, the definition it already has
+	"rename:tag/b=tag/b", "rename:tag/a=tag/a", "updtag:tag/b=tag:a",
 	"deltag:tag/a", "deltag:tag/b", "deltag:tag/zz", "deltag:mark/m",
 	"markadd:mark/m=1", "markadd:mark/m=99", "markadd:tag/a=1", "markdel:mark/m=0", "markadd:mark/m=", "markadd:mark/zz=1",
 	// a tag that refers to a mark, a mark that is emptied, deleted or extended while referenced
@@ -315,7 +317,11 @@ func checkApplied(call string, st manager.VerifState, bad func(string, string, .
 			bad("c11.applied-without-effect", "%s returned nil but tag %s is %v", call, name, t)
 		}
 	case "rename":
-		if find(name) != nil || find(val) == nil {
+		if name == val {
+			if find(name) == nil {
+				bad("c11.applied-without-effect", "%s returned nil but the tag does not exist", call)
+			}
+		} else if find(name) != nil || find(val) == nil {
 			bad("c11.applied-without-effect", "%s returned nil but old name present=%v new name present=%v", call, find(name) != nil, find(val) != nil)
 		}
 	case "markadd", "markdel":
@@ -454,7 +460,7 @@ func Run(tier string) int {
 	cv["traces_validated_against_impl"] = transitions
 	cv["evaluations"] = transitions
 	cv["distinct_nontrivial"] = applied
-	cv["rule"] = "BFS over sequences of tag API calls (53-call menu: valid and invalid names, definitions, references to existing/missing/self/cycle-closing tags, query/colour/name updates, marks with known/unknown ids, converter attach/detach, deletes) on the real service holding 3 imported streams, in three modes (background jobs drained after every call / every job held where it starts until the sequence ends / every job held before its completion until the sequence ends; in the held modes the references and flags are checked while the jobs are parked and again after they ran); a state is the complete tag table plus the parked jobs; every transition runs in a supervised worker process; non-trivial = the call was applied (returned nil)"
+	cv["rule"] = "BFS over sequences of tag API calls (62-call menu: valid and invalid names, definitions, references to existing/missing/self/cycle-closing tags, query/colour/name updates, marks with known/unknown ids, converter attach/detach, deletes) on the real service holding 3 imported streams, in three modes (background jobs drained after every call / every job held where it starts until the sequence ends / every job held before its completion until the sequence ends; in the held modes the references and flags are checked while the jobs are parked and again after they ran); a state is the complete tag table plus the parked jobs; every transition runs in a supervised worker process; non-trivial = the call was applied (returned nil)"
 	cv["menu"] = len(menu)
 	cv["depth_completed"] = depthDone
 	cv["depth_bound"] = depth
